@@ -358,8 +358,10 @@ func c07Loop(c *Ctx, r *Report, ci *clientInfo, control bool) map[string]bool {
 	dlKey := "errors.Is(" + describeAV(readErr) + ",global:os.ErrDeadlineExceeded)"
 	eofKey := "errors.Is(" + describeAV(readErr) + ",global:io.EOF)"
 	foundReadErrReturn := false
-	for _, rs := range fr.returns {
-		if len(rs.state) == 0 {
+	// (a return may hand the error through a local helper: judged at that helper's return)
+	for _, site := range expandedReturns(fr, 0) {
+		rs := site.rs
+		if len(rs.state) == 0 || len(rs.vals) < 2 {
 			continue
 		}
 		ifc, ok := rs.vals[1].(AIface)
@@ -370,7 +372,7 @@ func c07Loop(c *Ctx, r *Report, ci *clientInfo, control bool) map[string]bool {
 		if !ok || p.obj == nil {
 			continue
 		}
-		errField := fr.loadPath(p.obj, ".0", types.Universe.Lookup("error").Type(), rs.instr)
+		errField := site.fr.loadPath(p.obj, ".0", types.Universe.Lookup("error").Type(), rs.instr)
 		if rr, ok := errField.(ARef); !ok || rr.key != readErr.key {
 			continue
 		}
@@ -406,8 +408,9 @@ func c07Loop(c *Ctx, r *Report, ci *clientInfo, control bool) map[string]bool {
 	}
 	// non-nil result returned as &ClientError{Err: result}
 	wrapped := false
-	for _, rs := range fr.returns {
-		if len(rs.state) == 0 {
+	for _, site := range expandedReturns(fr, 0) {
+		rs := site.rs
+		if len(rs.state) == 0 || len(rs.vals) < 2 {
 			continue
 		}
 		ifc, ok := rs.vals[1].(AIface)
@@ -418,10 +421,10 @@ func c07Loop(c *Ctx, r *Report, ci *clientInfo, control bool) map[string]bool {
 		if !ok || p.obj == nil {
 			continue
 		}
-		ef := fr.loadPath(p.obj, ".0", types.Universe.Lookup("error").Type(), rs.instr)
+		ef := site.fr.loadPath(p.obj, ".0", types.Universe.Lookup("error").Type(), rs.instr)
 		if rr, ok := ef.(ARef); ok {
 			if res, ok := rc.res.(ARef); ok && rr.key == res.key {
-				wrapped = ci.errorClass(fr, rs.vals[1]) == "ClientError"
+				wrapped = ci.errorClass(site.fr, rs.vals[1]) == "ClientError"
 			}
 		}
 	}
